@@ -41,7 +41,16 @@ func c04Check(c c04Case) string {
 	default:
 		cs.Doc = []byte(model.Spell(c.Forest, model.Plain2))
 	}
-	res := ops.DefaultEnv.Run(&cs)
+	var res *ops.Result
+	if c.Entry == "md-massive" {
+		cs.Opts.Massive = true
+		res = pool("plain").Run(&cs)
+	} else {
+		res = ops.DefaultEnv.Run(&cs)
+	}
+	if res.Infra != "" {
+		return ""
+	}
 	head := fmt.Sprintf("forest %s format=%s entry=%s\n", c.Forest, c.Format, c.Entry)
 	if cr := res.Crashed(); cr != "" {
 		return head + cr
@@ -53,7 +62,11 @@ func c04Check(c c04Case) string {
 	if err != nil {
 		return fmt.Sprintf("%soutput is not well-formed %s: %v\n%s", head, c.Format, err, res.Out)
 	}
-	if !model.EqualForest(got, merged) {
+	if c.Entry == "md-massive" {
+		if !forestMultisetEqual(got, merged) {
+			return fmt.Sprintf("%sdecoded massive output %s differs (as a multiset of roots) from the tree %s\noutput:\n%s", head, got, merged, res.Out)
+		}
+	} else if !model.EqualForest(got, merged) {
 		return fmt.Sprintf("%sdecoded output %s differs from the tree %s\noutput:\n%s", head, got, merged, res.Out)
 	}
 	if c.Format == "json" && strings.Count(string(res.Out), "\n") != len(merged) {
@@ -230,7 +243,7 @@ func dedup(in []string) []string {
 func c04Gen() *rapid.Generator[c04Case] {
 	return rapid.Custom(func(t *rapid.T) c04Case {
 		format := rapid.SampledFrom([]string{"json", "yaml", "toml"}).Draw(t, "format")
-		entry := rapid.SampledFrom([]string{"md", "noiter", "root"}).Draw(t, "entry")
+		entry := rapid.SampledFrom([]string{"md", "md", "noiter", "noiter", "root", "root", "md-massive"}).Draw(t, "entry")
 		pool := c04Names(entry)
 		if format == "yaml" && known("C04", "yaml-multiline-name") {
 			var p2 []string
